@@ -214,7 +214,7 @@ func unmarshalRoutes(rs []*v3routepb.Route) ([]*Route, error) {
 				}
 				if backoff := retryPolicy.GetRetryBackOff(); backoff != nil {
 					route.RetryPolicy.RetryBackOff = &RetryBackOff{
-						BaseInterval: backoff.GetMaxInterval().AsDuration(),
+						BaseInterval: backoff.GetBaseInterval().AsDuration(),
 						MaxInterval:  backoff.GetMaxInterval().AsDuration(),
 					}
 				}
